@@ -67,6 +67,9 @@ struct TimeCase
                    // start of its own clock): 1 = a POST with a body, 2 = a bodyless GET, 3 = a chunked POST, 4 = GET then POST,
                    // 5 = POST, chunked POST, GET (the timed request is the fourth)
     int coincide = 0; // 1: the completing bytes arrive together with the last clock step (same wake-up as a scan tick)
+    // two stalls in one request (round 6): the bytes up to prePoint, a first stall of preMs, the bytes up to stallPoint (>= the end
+    // of the head), then the rest of the stall - both counted from the start of the request
+    int prePoint = 0, preMs = 0;
 };
 static std::vector<SizeCase> gSize;
 static std::vector<TimeCase> gTime;
@@ -196,7 +199,8 @@ static void case_time(const TimeCase& c, vr::Ctx& ctx)
     case 4: priors = { reqGet, req }; break;
     case 5: priors = { req, reqChunked, reqGet }; break;
     }
-    std::string what = std::string(kPriorNames[c.prior]) + "header=" + std::to_string(c.headerMs) + "ms body=" + std::to_string(c.bodyMs) + "ms stall " + kStallNames[c.stallPoint] + " for " + std::to_string(stall) + "ms phase=" + std::to_string(c.phase) + (c.coincide ? " completion-with-the-last-clock-step" : "");
+    std::string two = c.preMs ? std::string("first a stall ") + kStallNames[c.prePoint] + " for " + std::to_string(c.preMs) + "ms, in all: " : "";
+    std::string what = std::string(kPriorNames[c.prior]) + two + "header=" + std::to_string(c.headerMs) + "ms body=" + std::to_string(c.bodyMs) + "ms stall " + kStallNames[c.stallPoint] + " for " + std::to_string(stall) + "ms phase=" + std::to_string(c.phase) + (c.coincide ? " completion-with-the-last-clock-step" : "");
     ctx.note("time " + what);
     if (c.phase)
     {
@@ -226,14 +230,32 @@ static void case_time(const TimeCase& c, vr::Ctx& ctx)
         }
         cl.received.clear();
     }
-    if (stallAt[c.stallPoint] > 0)
+    int first408At = -1;
+    bool completed = false;
+    if (c.preMs > 0)
+    {
+        if (stallAt[c.prePoint] > 0)
+        {
+            cl.send_bytes(req.substr(0, stallAt[c.prePoint]));
+            after(steps, true);
+        }
+        for (int t = 250; t <= c.preMs; t += 250)
+        {
+            sim::tick(250);
+            after(steps, false);
+            cl.pump();
+            if (first408At < 0 && status_of(cl.received) == 408)
+                first408At = t;
+        }
+        cl.send_bytes(req.substr(stallAt[c.prePoint], stallAt[c.stallPoint] - stallAt[c.prePoint]));
+        after(steps, true);
+    }
+    else if (stallAt[c.stallPoint] > 0)
     {
         cl.send_bytes(req.substr(0, stallAt[c.stallPoint]));
         after(steps, true);
     }
-    int first408At = -1;
-    bool completed = false;
-    for (int t = 250; t <= stall; t += 250)
+    for (int t = c.preMs + 250; t <= stall; t += 250)
     {
         sim::tick(250);
         if (c.coincide && t + 250 > stall)
@@ -396,6 +418,23 @@ int main(int argc, char** argv)
                         for (int co = 0; co < 2; ++co)
                             if (prior < 2 || thorough || (sp != 1 && sp != 3)) // quick: the added kinds at three stall points
                                 gTime.push_back({ p[0], p[1], sp, si, ph, prior, co });
+    // two stalls: the head completes late but in time, the body then stalls; judged by the body time-out from the request's start
+    for (auto& p : pairs)
+        for (int pre : { 250, 500, 750 })
+            for (int pp = 0; pp < 3; ++pp)
+                for (int sp = 3; sp < 5; ++sp)
+                    for (int si = 0; si < 4; ++si)
+                        for (int prior = 0; prior < 2; ++prior)
+                        {
+                            int T = p[1], total = (int[]) { T - 500, T, T + 500, T + 1000 }[si];
+                            if (pre >= std::min(p[0], p[1]) || total <= pre)
+                                continue;
+                            if (!thorough && ((pp == 1) || (prior == 1 && pre != 500)))
+                                continue;
+                            TimeCase tc { p[0], p[1], sp, si, 0, prior, 0 };
+                            tc.prePoint = pp, tc.preMs = pre;
+                            gTime.push_back(tc);
+                        }
     int pairs2[3][2] = { { 1000, 3000 }, { 3000, 1000 }, { 1000, 1000 } };
     for (auto& p : pairs2)
         for (int ka = 0; ka < 5; ++ka)
